@@ -21,7 +21,9 @@ OPERANDS = ["[a]", "[b]", "[c]", "1", "2.5", "'s'", '"s"', "`d`", "f([a],'x')", 
 # a second operand alphabet with awkward string operands (brackets, the other quote, operators inside strings)
 OPERANDS_AWKWARD = ['"(x"', "[a]", "'y)'", '"it\'s"', "[b]", '"a AND b"', "'1 + (2'", "`)`", '"]["', "2.5", '"#FF0000"', "'#FfF'", '"#aBcDeF80"',
                     # quotes and brackets inside back-quoted literals
-                    '`5" pipe`', "`o'clock (UTC)`"]
+                    '`5" pipe`', "`o'clock (UTC)`",
+                    # function calls whose argument is a parenthesised sub-expression
+                    'tostring(([a] / 2),"%.1f")', 'length(("x" + [b]))']
 
 
 def level(node):
